@@ -97,6 +97,16 @@ def run(R):
         add = _emission_guarded(R, "C08.agg", f, pushes, "agg")
         if add is not None:
             R.ok("C08.agg", "agg", "every pushed row passes distinct==false or add()==true (with or without HAVING)", add.loc())
+            # a tuple must be recorded only for a row that is emitted: no HAVING test after add() within one iteration
+            lp = PR.loop_of(f, add.bb)
+            later = [c for c in f.calls if short(c.name).endswith("aggregate_execution::accept_group") and
+                     c.bb in f.reachable_from(add.bb, avoid={lp[0]} if lp else set())]
+            if later:
+                R.violation("C08.agg", "agg|recorded-before-having",
+                            "execute_result records a tuple in the DISTINCT set before HAVING has accepted its group: a rejected group's tuple "
+                            "suppresses a later accepted group with the same tuple", [add.loc()])
+            else:
+                R.ok("C08.agg", "agg|order", "the tuple is recorded only after HAVING accepted the group", add.loc())
             # memory local to the call
             local_new = PR.calls_matching(f, r"^sqlgrep::execution::helpers::DistinctValues::new$")
             recv_self = any(o.kind == "arg" and o.arg == 1 for o in F.origins(f, add.args[0], depth=6, through_calls=False))
